@@ -31,7 +31,7 @@ Qed.
 
 (* ---- programs that use neither ignore_errors() nor the block API: only try/finally regions change the globals ---- *)
 Definition plain_stmt (st : stmt) : bool :=
-  match st with SIgnore _ | SBSet _ _ | SBGet _ _ | SBSetIdx _ _ _ | SBGetIdx _ _ _ | SOIf _ _ _ _ | SOWhile _ _ _ _ | SBreakIf _ | SOFor _ _ _ _ _ _ => false | _ => true end.
+  match st with SIgnore _ | SBSet _ _ | SBGet _ _ | SBSetIdx _ _ _ | SBGetIdx _ _ _ | SBArrSet _ _ _ | SOIf _ _ _ _ | SOWhile _ _ _ _ | SBreakIf _ | SOFor _ _ _ _ _ _ => false | _ => true end.
 Lemma gen_stmts_no_set : forall pr (r : bst), forallb plain_stmt pr = true -> no_set (p:=p) _ (gen_stmts c pr r).
 Proof.
   induction pr as [|st pr IH]; intros r H; cbn [gen_stmts]; [constructor|].
